@@ -9,7 +9,8 @@
    order of a frozenset: the theorems hold for every choice of them ([keq] an equivalence).
    [F] carries the three facts tools/pygen reads off rpyc/utils/registry.py. *)
 From V Require Import lib.Base model.Brine model.Registry proofs.RegistryP gen.Gen_registry.
-From Coq Require Import Sorting.Sorted.
+From Coq Require Import String Sorting.Sorted.
+Open Scope string_scope.
 Open Scope Z_scope.
 
 (* 1. after ANY history with a clock that does not go backwards, a query for N (already upper-cased, see 1')
@@ -60,7 +61,7 @@ Theorem c18_notifications_exact : forall keq F pruning, keq_equiv keq -> notify_
   end.
 Proof.
   intros keq F pruning (R & S & T) HF rh now h r N b. cbn zeta.
-  apply (notes_exact keq F pruning R S T); auto. now apply wf_state_after.
+  apply (notes_exact keq F pruning S T); auto. now apply wf_state_after.
 Qed.
 Print Assumptions c18_notifications_exact.
 
